@@ -80,8 +80,10 @@ class Abs(Evaluator):
     """Evaluator + for/while/augassign/containers/method calls on abstract objects.
     `ancestors`: class name -> set of (transitive) base class names, for isinstance on Obj tags.
     Obj fields named 'm()' are results of zero-side-effect method calls x.m(...)."""
-    def __init__(self, env, ancestors=None, tolerant_calls=(), **kw):
+    def __init__(self, env, ancestors=None, tolerant_calls=(), closed=False, **kw):
         super().__init__(env, **kw)
+        self.closed = closed      # closed world: the abstract objects list ALL their methods (a missing one is
+                                  # the AttributeError the real object would raise)
         self.ancestors = ancestors or {}
         self.stores = []          # (obj, attr, value) attribute stores performed
         self.effects = []         # (receiver repr, method, args)
@@ -124,6 +126,8 @@ class Abs(Evaluator):
             if isinstance(base, Obj):
                 if key in base.fields:
                     return base.fields[key]
+                if self.closed:
+                    raise Raised('AttributeError')
                 raise AnalysisError(f"method outside the abstract domain: {norm(e)} on {base.tag}")
             if isinstance(base, dict) and e.func.attr in ('items', 'values', 'keys') and not e.args:
                 return list(getattr(base, e.func.attr)())
@@ -349,7 +353,8 @@ def rule_overlap(repo):
             for _, xv, xa, xb in xs:
                 for _, yv, ya, yb in ys:
                     r.evaluations += 1
-                    out = Evaluator({px: xv, py: yv}, arith=True, isinstance_tags=tags).run(body)
+                    out = Evaluator({px: xv, py: yv}, arith=True, isinstance_tags=tags,
+                                    funcs={'max': max, 'min': min}).run(body)
                     want = max(xa, ya) < min(xb, yb)
                     if out[0] != 'return' or bool(out[1]) != want:
                         wrong = wrong or ((xa, xb), (ya, yb), out, want)
@@ -843,6 +848,14 @@ def _mw_evidence(rs, f, drv):
             good = good and sets_true
         if good and len(flags) == 1:
             flag = next(iter(flags))
+            # every place of the try body that sets the flag is one of the asserted ones
+            n_sets = 0
+            for n in [x for s in tr.body for x in walk_no_nested(s) if isinstance(x, ast.Assign)]:
+                for t2 in n.targets:
+                    if any(isinstance(x, ast.Name) and x.id == flag for x in ast.walk(t2)):
+                        n_sets += 1
+            if n_sets != len(asserts):
+                return None
             init = reaching_value(flag, tr)
             others = [v for v in _assignments_to(f, flag)
                       if not (isinstance(v, ast.Constant) and v.value in (True, False))]
@@ -1297,7 +1310,8 @@ def rule_optable(repo):
     if len(params) != 4:
         raise AnalysisError(f"{fq}: signature changed ({params})")
     p_ff, p_wr = params[2], params[3]
-    ifs = [n for n in walk_no_nested(f) if isinstance(n, ast.If) and isinstance(n.test, ast.Name) and n.test.id == p_ff]
+    ifs = [n for n in walk_no_nested(f) if isinstance(n, ast.If) and
+           {x.id for x in ast.walk(n.test) if isinstance(x, ast.Name)} == {p_ff}]
     if len(ifs) != 1:
         r.bad(m, fq, 'operator checks', "no case split on the block kind (update_ff) around the operator checks: "
               "the assignment-operator rules are not enforced", f.lineno)
@@ -1337,7 +1351,7 @@ def rule_optable(repo):
         for opname, op in OPS:
             for sc in scen:
                 objs = [mk(k) for k in sc]
-                ev = Abs({p_wr: True, p_ff: ff, p_op: op, p_objs: objs, acc: []}, ancestors=anc, arith=True)
+                ev = Abs({p_wr: True, p_ff: ff, p_op: op, p_objs: objs, acc: []}, ancestors=anc, arith=True, closed=True)
                 out = run_block(ev, L)
                 r.evaluations += 1
                 if 'comp' in sc:
@@ -1458,9 +1472,11 @@ def rule_nowriter(repo):
                                      isinstance(c.args[0], ast.Tuple) for c in walk_no_nested(g))]
     headless = [n for n in free if n not in headed]
     cons = norm(rets[0])
+    whiles = [n for n in walk_no_nested(g) if isinstance(n, ast.While) and isinstance(n.test, ast.Name)]
     if len(headed) != 1 or len(headless) != 1:
         r.bad(m3, gq, cons, "the result is not headed nets + headless nets: nets without writer are silently dropped "
               "and never reported", rets[0].lineno)
+        headless = [w.test.id for w in whiles][:1]
     else:
         ev = Abs({headed[0]: [('w', 'n1')], headless[0]: ['n2', 'n3']}, arith=True)
         try:
@@ -1474,30 +1490,31 @@ def rule_nowriter(repo):
         else:
             r.bad(m3, gq, cons, f"with one headed and two headless nets the result is {val}: headless nets must be returned "
                   "as (None, net) so that NoWriterError is raised", rets[0].lineno)
-        # nets that found no writer in a round stay in the work list
-        hl = headless[0]
-        wl = [n for n in walk_no_nested(g) if isinstance(n, ast.While) and isinstance(n.test, ast.Name) and n.test.id == hl]
-        cons2 = 'a net without writer in this round is carried over to the next round / the result'
-        ok2 = False
-        if len(wl) == 1:
-            w = wl[0]
-            nxt = [s for s in w.body if isinstance(s, ast.Assign) and norm(s.targets[0]) == hl and isinstance(s.value, ast.Name)]
-            if nxt:
-                nh = nxt[-1].value.id
-                apps = [c for c in walk_no_nested(w) if isinstance(c, ast.Call) and norm(c.func) == f"{nh}.append"]
-                for c in apps:
-                    gs = [gg for gg in guards_of(c, stop=w) if gg.kind == 'if']
-                    if len(gs) == 1 and isinstance(gs[0].test, ast.Name) and gs[0].polarity is False:
-                        flag = gs[0].test.id
-                        lp = enclosing(c, (ast.For,))
-                        if lp is not None and norm(lp.iter) == hl and [norm(a) for a in c.args] == [norm(lp.target)] \
-                                and isinstance(reaching_value(flag, gs[0].node), ast.Constant) is False:
-                            ok2 = True
-                        elif lp is not None and norm(lp.iter) == hl and [norm(a) for a in c.args] == [norm(lp.target)]:
-                            ok2 = True
-        (r.ok(m3, gq, cons2) if ok2 else
-         r.bad(m3, gq, cons2, "nets for which no writer was found are not re-queued: they vanish from the result and are "
-               "never reported as NoWriterError", g.lineno))
+    # nets that found no writer in a round stay in the work list
+    cons2 = 'a net without writer in this round is carried over to the next round / the result'
+    ok2 = False
+    hl = headless[0] if headless else None
+    wl = [n for n in whiles if n.test.id == hl]
+    if len(wl) == 1:
+        w = wl[0]
+        nxt = [s for s in w.body if isinstance(s, ast.Assign) and norm(s.targets[0]) == hl and isinstance(s.value, ast.Name)]
+        if nxt:
+            nh = nxt[-1].value.id
+            apps = [c for c in walk_no_nested(w) if isinstance(c, ast.Call) and norm(c.func) == f"{nh}.append"]
+            for c in apps:
+                gs = [gg for gg in guards_of(c, stop=w) if gg.kind == 'if']
+                if len(gs) == 1 and isinstance(gs[0].test, ast.Name) and gs[0].polarity is False:
+                    flag = gs[0].test.id
+                    lp = enclosing(c, (ast.For,))
+                    inits = [s2 for s2 in (lp.body if lp is not None else []) if isinstance(s2, ast.Assign)
+                             and any(isinstance(t2, ast.Name) and t2.id == flag for t2 in s2.targets)]
+                    if lp is not None and norm(lp.iter) == hl and [norm(a) for a in c.args] == [norm(lp.target)] \
+                            and inits and isinstance(inits[0].value, ast.Constant) and inits[0].value.value is False \
+                            and inits[0].lineno < gs[0].node.lineno:
+                        ok2 = True
+    (r.ok(m3, gq, cons2) if ok2 else
+     r.bad(m3, gq, cons2, "nets for which no writer was found are not re-queued: they vanish from the result and are "
+           "never reported as NoWriterError", g.lineno))
     r.require_floor(3)
     return r
 
@@ -1531,9 +1548,10 @@ def rule_loop(repo):
                 sides = [t.left, t.comparators[0]]
                 sub = [s for s in sides if isinstance(s, ast.Subscript) and norm(s.slice) == u]
                 oth = [s for s in sides if norm(s) == v]
+                if len(sub) == 1:
+                    predmap = norm(sub[0].value)
                 if len(sub) == 1 and len(oth) == 1 and (isinstance(t.ops[0], (ast.IsNot, ast.NotEq))) == pol:
                     pred_ok = True
-                    predmap = norm(sub[0].value)
                 else:
                     extra.append(norm(t))
             else:
@@ -1757,3 +1775,128 @@ def rule_raise_resolves(repo):
 
 RULES = [rule_overlap, rule_slicekey, rule_pipeline, rule_mw_guard, rule_mw_cover, rule_porttable, rule_optable,
          rule_nowriter, rule_loop, rule_raise_resolves]
+
+
+# ---------------------------------------------------------------------------
+# self-test of the checker (thorough tier)
+def _m(name, file, old, new, rule=None, count=1):
+    return dict(name=name, file=file, old=old, new=new, rule=rule, count=count)
+
+
+MUTANTS = [
+    # --- R-overlap
+    _m('overlap-adjacent-slices', CONN, "if x.start <= y.start:  return y.start < x.stop", "if x.start <= y.start:  return y.start <= x.stop", 'R-overlap'),
+    _m('overlap-int-lower-bound', CONN, "else:                     return y.start <= x < y.stop", "else:                     return y.start < x < y.stop", 'R-overlap'),
+    _m('overlap-wrong-endpoint', CONN, "else:                   return x.start < y.stop", "else:                   return x.stop < y.stop", 'R-overlap'),
+    _m('overlap-int-int', CONN, "if isinstance( y, int ):  return x == y", "if isinstance( y, int ):  return x <= y", 'R-overlap'),
+    _m('slice-overlap-self', CONN, "return _overlap( s._dsl.slice, other._dsl.slice )", "return _overlap( s._dsl.slice, s._dsl.slice )", 'R-overlap'),
+    _m('siblings-include-self', CONN, "      ret.remove( s )\n", "", 'R-overlap'),
+    # --- R-C09-slicekey
+    _m('nested-slice-offset-lost', CONN, "      start += outer_start\n", "", 'R-C09-slicekey'),
+    _m('slice-bound-empty-accepted', CONN, "assert 0 <= start < stop <= s._dsl.Type.nbits", "assert 0 <= start <= stop <= s._dsl.Type.nbits", 'R-C09-slicekey'),
+    _m('slice-registered-at-slice', CONN, "      xd.parent_obj = top_signal", "      xd.parent_obj = s", 'R-C09-slicekey'),
+    _m('bit-index-interval', CONN, "start, stop = idx, idx + 1", "start, stop = idx - 1, idx", 'R-C09-slicekey'),
+    # --- R-C09-pipeline
+    _m('l4-drops-net-check', L4, "    s._check_port_in_nets()\n    s._check_upblk_calls()", "    s._check_upblk_calls()", 'R-C09-pipeline'),
+    _m('l3-drops-upblk-port-check', L3, "    s._check_port_in_upblk()\n    s._check_port_in_nets()\n", "    s._check_port_in_nets()\n", 'R-C09-pipeline'),
+    _m('check-before-collect', L2, "    s._elaborate_declare_vars()\n    s._elaborate_collect_all_vars()\n\n    s._check_valid_dsl_code()",
+       "    s._check_valid_dsl_code()\n    s._elaborate_declare_vars()\n    s._elaborate_collect_all_vars()", 'R-C09-pipeline'),
+    _m('check-before-net-resolution', L3, "    s._dsl.all_value_nets = s._resolve_value_connections()\n    s._dsl._has_pending_value_connections = False\n\n    s._check_valid_dsl_code()",
+       "    s._check_valid_dsl_code()\n    s._dsl.all_value_nets = s._resolve_value_connections()\n    s._dsl._has_pending_value_connections = False", 'R-C09-pipeline'),
+    _m('component-check-noop', COMP, "  def check( s ):\n    s._check_valid_dsl_code()", "  def check( s ):\n    pass", 'R-C09-pipeline'),
+    _m('replace-component-unchecked', COMP, "def replace_component( top, foo, cls, check=True ):", "def replace_component( top, foo, cls, check=False ):", 'R-C09-pipeline'),
+    _m('gendag-no-check', GENDAG, "    top.check()\n    top._dag = PassMetadata()", "    top._dag = PassMetadata()", 'R-C09-pipeline'),
+    _m('l2-check-conditional', L2, "    s._elaborate_collect_all_vars()\n\n    s._check_valid_dsl_code()",
+       "    s._elaborate_collect_all_vars()\n\n    if s._dsl.all_upblks: s._check_valid_dsl_code()", 'R-C09-pipeline'),
+    # --- R-C09-mw-guard
+    _m('mw-single-writer-reported', L2, "      if len(wr_blks) > 1:", "      if len(wr_blks) >= 1:", 'R-C09-mw-guard'),
+    _m('mw-same-block-parent', L2, "          if wrx_blks[0] != wr_blks[0]:", "          if wrx_blks[0] == wr_blks[0]:", 'R-C09-mw-guard'),
+    _m('mw-method-writer-inverted', L5, "            if writer is None:\n              writer = member", "            if writer is not None:\n              writer = member", 'R-C09-mw-guard'),
+    _m('mw-net-first-assert-dropped', L3, "              assert not has_writer\n              has_writer, writer = True, v\n\n            else:",
+       "              has_writer, writer = True, v\n\n            else:", 'R-C09-mw-guard'),
+    # --- R-C09-mw-cover
+    _m('mw-ancestor-one-level', L2, "      while x.is_signal():\n        if x is not obj", "      if x.is_signal():\n        if x is not obj", 'R-C09-mw-cover'),
+    _m('mw-sibling-no-overlap-test', L2, "        if x.slice_overlap( obj ) and x in write_upblks:", "        if x in write_upblks:", 'R-C09-mw-cover'),
+    _m('mw-ancestor-membership-inverted', L2, "        if x is not obj and x in write_upblks:", "        if x is not obj and x not in write_upblks:", 'R-C09-mw-cover'),
+    _m('mw-map-filtered', L2, "        write_upblks[ wr ].add( blk )", "        if wr.is_top_level_signal(): write_upblks[ wr ].add( blk )", 'R-C09-mw-cover'),
+    # --- R-C09-porttable
+    _m('inport-written-by-own-block', L2, "          if host.get_parent_object() != blk_hostobj:", "          if host != blk_hostobj:", 'R-C09-porttable'),
+    _m('wire-read-from-outside', L2, "          if blk_hostobj != host:\n            raise SignalTypeError(\"\"\"[Type 1]", "          if blk_hostobj == host:\n            raise SignalTypeError(\"\"\"[Type 1]", 'R-C09-porttable'),
+    _m('child-outport-written-by-parent', L2, "        elif isinstance( obj, OutPort ):\n          if blk_hostobj != host:",
+       "        elif isinstance( obj, OutPort ):\n          if blk_hostobj != host and blk_hostobj != host.get_parent_object():", 'R-C09-porttable'),
+    _m('deeper-driver-to-inport', L3, "              valid = isinstance( u, OutPort ) and \\\n                      isinstance( v, (OutPort, Wire) )",
+       "              valid = isinstance( u, OutPort ) and \\\n                      isinstance( v, (OutPort, Wire, InPort) )", 'R-C09-porttable'),
+    _m('sibling-any-driver', L3, "              valid = isinstance( u, OutPort ) and isinstance( v, InPort )", "              valid = isinstance( u, Signal ) and isinstance( v, InPort )", 'R-C09-porttable'),
+    _m('relation-direction-confused', L3, "            elif rhost == whost.get_parent_object():", "            elif rhost.get_parent_object() == whost:", 'R-C09-porttable'),
+    _m('loopback-inverted', L3, "                  if not u_connected_in_parent:", "                  if u_connected_in_parent:", 'R-C09-porttable'),
+    _m('dfs-not-expanded', L3, "            S.append( v )\n", "", 'R-C09-porttable'),
+    _m('same-host-inport-driven', L3, "              valid = isinstance( u, (Signal, Const) ) and \\\n                      isinstance( v, (OutPort, Wire) )",
+       "              valid = isinstance( u, (Signal, Const) ) and \\\n                      isinstance( v, Signal )", 'R-C09-porttable'),
+    _m('shallower-driver-const-rejected', L3, "              valid = isinstance( u, (Signal, Const) ) and isinstance( v, InPort )",
+       "              valid = isinstance( u, Signal ) and isinstance( v, InPort )", 'R-C09-porttable'),
+    # --- R-C09-optable
+    _m('update-accepts-lshift', L2, "            elif not isinstance( op, ast.MatMult ):", "            elif not isinstance( op, (ast.MatMult, ast.LShift) ):", 'R-C09-optable'),
+    _m('ff-toplevel-inverted', L2, "              if not x.is_top_level_signal():", "              if x.is_top_level_signal():", 'R-C09-optable'),
+    _m('ff-no-double-buffer', L2, "              x._dsl.needs_double_buffer = True", "              pass", 'R-C09-optable'),
+    _m('write-checks-skipped', L2, "          if not is_write or not objs:", "          if is_write or not objs:", 'R-C09-optable'),
+    _m('callsite-is-write-dropped', L2, "update_ff = blk in s._dsl.update_ff, is_write=True )", "update_ff = blk in s._dsl.update_ff )", 'R-C09-optable'),
+    _m('nonsignal-write-accepted', L2, "            if not isinstance( obj, Signal ):", "            if not isinstance( obj, NamedObject ):", 'R-C09-optable'),
+    _m('block-kinds-swapped', L2, "          if update_ff:\n", "          if not update_ff:\n", 'R-C09-optable'),
+    _m('ff-plain-assign-branch-dropped', L2, "            if op is None:\n              raise UpdateFFBlockWriteError( s, func, '=', nodelist[0].lineno,\n                \"Fix the '=' assignment with '<<='\")\n            elif op == 'for':",
+       "            if op == 'for':", 'R-C09-optable'),
+    # --- R-C09-nowriter
+    _m('headless-nets-dropped', L3, "    return headed + [ (None, x) for x in headless ]", "    return headed", 'R-C09-nowriter'),
+    _m('nowriter-test-inverted', L3, "for writer, signals in nets if writer is None ]", "for writer, signals in nets if writer is not None ]", 'R-C09-nowriter'),
+    _m('headless-not-requeued', L3, "          new_headless.append( net )\n", "", 'R-C09-nowriter'),
+    _m('nowriter-not-raised', L3, "    if headless:\n      raise NoWriterError( headless )", "    if headless:\n      pass", 'R-C09-nowriter'),
+    # --- R-C09-loop
+    _m('loop-test-inverted', L3, "            elif v is not pred[u]:", "            elif v is pred[u]:", 'R-C09-loop'),
+    _m('pred-not-recorded', L3, "              pred[v] = u\n", "", 'R-C09-loop'),
+    _m('floodfill-local-adjacency', L3, "s._floodfill_nets( s._dsl.all_signals, s._dsl.all_adjacency )", "s._floodfill_nets( s._dsl.all_signals, s._dsl.adjacency )", 'R-C09-loop'),
+    # --- R-C09-raise-resolves
+    _m('d10-import-dropped', CONN, "from .errors import InvalidConnectionError, InvalidPlaceholderError", "from .errors import InvalidConnectionError", 'R-C09-raise-resolves'),
+    _m('d10-unbound-blk', CONN, "\"in a placeholder component {!r}.\".format( host )", "\"in a placeholder component {!r}.\".format( blk.__name__ )", 'R-C09-raise-resolves'),
+    _m('nowriter-arity', L3, "      raise NoWriterError( headless )", "      raise NoWriterError()", 'R-C09-raise-resolves'),
+    _m('l3-import-dropped', L3, "    NoWriterError,\n", "", 'R-C09-raise-resolves'),
+    _m('samename-arity', L1, "      raise UpblkFuncSameNameError( name )", "      raise UpblkFuncSameNameError( name, blk )", 'R-C09-raise-resolves'),
+    _m('misspelt-error-class', L2, "              raise UpdateFFNonTopLevelSignalError( s, func, nodelist[0].lineno )", "              raise UpdateFFNonTopLevelError( s, func, nodelist[0].lineno )", 'R-C09-raise-resolves'),
+]
+
+EQUIV = [
+    _m('overlap-closed-form', CONN, "      if x.start <= y.start:  return y.start < x.stop\n      else:                   return x.start < y.stop",
+       "      return max( x.start, y.start ) < min( x.stop, y.stop )"),
+    _m('overlap-negated-form', CONN, "else:                     return y.start <= x < y.stop", "else:                     return not (x < y.start or x >= y.stop)"),
+    _m('slice-overlap-args-swapped', CONN, "return _overlap( s._dsl.slice, other._dsl.slice )", "return _overlap( other._dsl.slice, s._dsl.slice )"),
+    _m('bit-index-two-statements', CONN, "      start, stop = idx, idx + 1", "      start = idx\n      stop = start + 1"),
+    _m('l4-checks-via-super', L4, "    s._check_upblk_writes()\n    s._check_port_in_upblk()\n    s._check_port_in_nets()\n    s._check_upblk_calls()",
+       "    super()._check_valid_dsl_code()\n    s._check_upblk_calls()"),
+    _m('l3-checks-reordered', L3, "    s._check_upblk_writes()\n    s._check_port_in_upblk()\n    s._check_port_in_nets()\n", "    s._check_port_in_upblk()\n    s._check_upblk_writes()\n    s._check_port_in_nets()\n"),
+    _m('mw-len-ge-2', L2, "      if len(wr_blks) > 1:", "      if len(wr_blks) >= 2:"),
+    _m('mw-not-equal-form', L2, "          if wrx_blks[0] != wr_blks[0]:", "          if not (wrx_blks[0] == wr_blks[0]):"),
+    _m('mw-ancestor-conjuncts-swapped', L2, "        if x is not obj and x in write_upblks:", "        if x in write_upblks and x is not obj:"),
+    _m('port-valid-conjuncts-swapped', L3, "              valid = isinstance( u, OutPort ) and isinstance( v, InPort )", "              valid = isinstance( v, InPort ) and isinstance( u, OutPort )"),
+    _m('port-relation-sides-swapped', L3, "            if   whost == rhost:", "            if   rhost == whost:"),
+    _m('port-upblk-not-eq', L2, "          if blk_hostobj != host:\n            raise SignalTypeError(\"\"\"[Type 1]", "          if not (blk_hostobj == host):\n            raise SignalTypeError(\"\"\"[Type 1]"),
+    _m('optable-loop-var-renamed', L2, "            for x in objs:\n              if not x.is_top_level_signal():\n                raise UpdateFFNonTopLevelSignalError( s, func, nodelist[0].lineno )\n\n              x._dsl.needs_double_buffer = True",
+       "            for sig in objs:\n              if not sig.is_top_level_signal():\n                raise UpdateFFNonTopLevelSignalError( s, func, nodelist[0].lineno )\n\n              sig._dsl.needs_double_buffer = True"),
+    _m('nowriter-comprehension-renamed', L3, "headless = [ signals for writer, signals in nets if writer is None ]", "headless = [ sigs for w, sigs in nets if w is None ]"),
+    _m('loop-test-sides-swapped', L3, "            elif v is not pred[u]:", "            elif pred[u] is not v:"),
+    _m('import-split', CONN, "from .errors import InvalidConnectionError, InvalidPlaceholderError", "from .errors import InvalidConnectionError\nfrom .errors import InvalidPlaceholderError"),
+    _m('dfs-mark-after-push', L3, "            visited.add( v )\n            S.append( v )\n", "            S.append( v )\n            visited.add( v )\n"),
+]
+
+LEVEL_TEXT = ("Static analysis of the elaboration-time design-rule checkers of pymtl3/dsl: the slice-overlap predicate is proved "
+              "against interval intersection over all order types; the port-direction and assignment-operator decisions are "
+              "abstractly evaluated over every hierarchical relation x port class / block kind x operator and compared with "
+              "the specified tables; the check pipeline actually run by each component level is resolved through the MRO; "
+              "multi-writer raises are tied to a two-driver test; headless nets and connection loops are shown to be "
+              "reported; every design-rule raise resolves. It decides these clauses for all designs at the level of code "
+              "shape, without executing pymtl3.")
+LEVEL_NOTE = ("Not decided: completeness of the iterative writer propagation in _resolve_value_connections (which placement of "
+              "two drivers across nets is found), faithfulness of the read/write sets extracted from update-block ASTs "
+              "(C02), self-connections. Known genuine findings: D9 (one block writing two overlapping slices is rejected), "
+              "augmented operators other than @=/<<= raise TypeError, ComponentLevel1.add_constraints in a placeholder "
+              "raises NameError.")
+TECHNIQUE = ("ast extraction + finite abstract evaluation (order types of slice endpoints; hierarchy x port-class and "
+             "block-kind x operator case splits), structural dominance of guards, MRO/call resolution of the elaborate "
+             "template, name/arity resolution of raise sites")
